@@ -135,7 +135,7 @@ func genC07(t *rapid.T) c07Case {
 		bucket := rapid.IntRange(0, 9).Draw(t, "bucket")
 		switch {
 		case bucket < 7:
-			body = g.formula(0)
+			body = g.bounded(80)
 		case bucket < 9:
 			body = manyQuantified(t, g, rapid.IntRange(5, 15).Draw(t, "nq"))
 		default:
